@@ -38,7 +38,11 @@ def scenarios(pid, tier, seed):
                    if x.get("fault", {}).get("kind") == "execve" and x["fault"]["errno"] == 13])
     if pid == "C18":
         # (also through the PATH search: attempts that fail before the one that starts the program)
-        return (spawn_scen.fam_signals(seed, big) + spawn_scen.fam_path(seed, False)[::3]
+        sig = spawn_scen.fam_signals(seed, big)
+        # (the very first launch of the process happens while SIGPIPE is at its default: whatever the library remembers from
+        # its first launch must not be taken for the state of later ones)
+        sig.sort(key=lambda x: 0 if x.get("sigpipe") == "dfl" else 1)
+        return (sig + spawn_scen.fam_path(seed, False)[::3]
                 + [x for x in spawn_scen.fam_faults(seed, False) if x.get("fault", {}).get("kind") == "signal"]
                 # ... and with an identity / process group of its own asked for
                 + [x for x in spawn_scen.fam_argv(seed, False) if x["class"].startswith("identity")])
@@ -128,7 +132,12 @@ def run(pid, tier, seed, replay=None):
     results.sort(key=lambda r: order.get(r["id"], 1 << 30))
     damaged = None
     for r in results:
-        if r["sanity"]:
+        if r["sanity"] and any(v.startswith(PREFIX[pid]) for v in r["viol"]):
+            # the descriptor tables disagree AND a monitor of this property fired in the same launch: the code did
+            # something to the descriptors behind the model's back (e.g. opened a file in an un-interposed way) and it
+            # shows; report the violation, judge nothing after it
+            pass
+        elif r["sanity"]:
             if new:
                 # a violation found earlier (e.g. the parent's own stdout got closed) has damaged the harness
                 # process; what follows is unreliable and is not judged
